@@ -392,6 +392,13 @@ class Parser:
     def parse_prefix_expression(self, stream: TokenStream) -> Expression:
         tok = stream.next_token()
         assert tok.type_ == TokenType.NOT
+        # `!` applies to a parenthesized expression, a query or a function call.
+        stream.expect(
+            TokenType.LPAREN,
+            TokenType.ROOT,
+            TokenType.CURRENT,
+            TokenType.FUNCTION,
+        )
         right = self.parse_filter_expression(stream, precedence=self.PRECEDENCE_PREFIX)
         self._raise_for_uncompared_function(right, tok)
         return PrefixExpression(tok, operator="!", right=right)
@@ -675,6 +682,11 @@ class Parser:
     def _raise_for_non_comparable_function(
         self, expr: Expression, token: Token
     ) -> None:
+        if isinstance(expr, (PrefixExpression, LogicalExpression, ComparisonExpression)):
+            raise JSONPathSyntaxError(
+                "expected a literal, a singular query or a function call", token=token
+            )
+
         if isinstance(expr, FilterQuery) and not expr.query.singular_query():
             raise JSONPathTypeError("non-singular query is not comparable", token=token)
 
